@@ -19,13 +19,15 @@ def register(PROPS):
         'rule': 'case = one pair of first two events; everything below it is explored exhaustively to the depth bound with a visited table per case; '
                 'states/transitions/traces are summed over cases (a state reached under two different first pairs is counted twice); non-trivial = '
                 'the subtree holds >= 2 distinct states',
-        'bound': {'quick': 'depth 5 at T0 = 2030-01-01 (drift run depth 4; a further run at T0 = 2028-03-01, a leap-year March, depth 4); narrow alphabet (one UID, the two- and three-occurrence schedules, ADD/replace, CANCEL, on-time TICK, EXIT) depth 12', 'thorough': 'depth 7 (drift run depth 6, leap-March run depth 5), narrow alphabet depth 20'},
+        'bound': {'quick': 'depth 5 at T0 = 2030-01-01 (drift run depth 4; a further run at T0 = 2028-03-01, a leap-year March, depth 4; at T0 = 2037-02-05T06:28:10Z, six seconds before the seconds since 1901 pass 2^32, depth 4; at T0 = 2040-03-01 depth 3); narrow alphabet (one UID, the two- and three-occurrence schedules, ADD/replace, CANCEL, on-time TICK, EXIT) depth 12', 'thorough': 'depth 7 (drift run depth 6, leap-March and 2037 runs depth 5, 2040 run depth 4), narrow alphabet depth 20'},
         'counter_map': {'states': 'states', 'transitions': 'transitions', 'traces_validated_against_impl': 'traces'},
         'drivers': [
             D('e2_explore', ['prop=C04', 'depth=5', '--case-timeout', '60'], ['prop=C04', 'depth=7', '--case-timeout', '300'], label='depth'),
             D('e2_explore', ['prop=C04', 'depth=4', 'drift=1.5', '--case-timeout', '60'], ['prop=C04', 'depth=6', 'drift=1.5', '--case-timeout', '300'], label='drift'),
             D('e2_explore', ['prop=C04', 'depth=4', 't0=1835481600', '--case-timeout', '60'], ['prop=C04', 'depth=5', 't0=1835481600', '--case-timeout', '300'], label='leap-march'),
             D('e2_explore', ['prop=C04', 'depth=3', '--case-timeout', '60'], ['prop=C04', 'depth=4', '--case-timeout', '120'], label='asan', variant='asan'),
+            D('e2_explore', ['prop=C04', 'depth=4', 't0=2117428090', '--case-timeout', '60'], ['prop=C04', 'depth=5', 't0=2117428090', '--case-timeout', '300'], label='2^32-s-since-1901'),
+            D('e2_explore', ['prop=C04', 'depth=3', 't0=2214172800', '--case-timeout', '60'], ['prop=C04', 'depth=4', 't0=2214172800', '--case-timeout', '300'], label='year-2040'),
             D('e2_explore', ['prop=C04', 'alpha=narrow', 'depth=12', '--case-timeout', '120'], ['prop=C04', 'alpha=narrow', 'depth=20', '--case-timeout', '600'], label='narrow-deep'),
         ],
         'assumptions': ['a task with nothing left to run (exhausted and fired, or loaded without a future occurrence) may be dropped by the daemon '
@@ -37,7 +39,7 @@ def register(PROPS):
         'level': 'model_checking',
         'technique': 'explicit-state exploration of the real echsd against a reference model of per-task concurrency limits',
         'claim': 'Task X (MAX-SIMUL 1, 2 or unset) and task Y (unset or 1), both SECONDLY with six occurrences: every history up to the stated '
-                 'depth over {ADD/replace, CANCEL, TICK on-time/idle/late, EXIT of any live job (each job individually)} is executed; a start must be for real '
+                 'depth over {ADD/replace, CANCEL, TICK on-time/idle/late, a TICK during which the start of the one due task fails before a child exists (pipe() answers EMFILE), EXIT of any live job (each job individually)} is executed; a start must be for real '
                  'iff fewer than N jobs of that task are alive, otherwise carry the no-run flag; every real job must be watched; the other task\'s '
                  'starts are judged by its own limit only.  A linear sweep runs one fill / refuse / exit / run-again history for every N = 1..62.',
         'note': E2_NOTE + '  Real process lifetimes are replaced by explicit EXIT events; echsx\'s handling of the no-run flag is C13/C14 territory.',
@@ -57,7 +59,7 @@ def register(PROPS):
         'level': 'model_checking',
         'technique': 'explicit-state exploration of the real echsd command handling against a map model',
         'claim': 'Peers 1000 and 1001 (and root for listing) over UIDs {A, a UID searched at start-up whose 32-bit hash agrees with A\'s in the low 6-10 bits (the 16-slot table must grow by much more than double), a UID in another slot with hash bits between the old and the new table size}: every history up to the stated depth over '
-                 '{ADD with owner field absent / = self / = other, two instructions in one request, CANCEL (also of unknown and foreign UIDs), '
+                 '{ADD with owner field absent / = self / = other (as a number and as a user name) / a number that no user has, two instructions in one request, CANCEL (also of unknown and foreign UIDs), '
                  'GET /queue (own and another user\'s), GET /sched, TICK} is executed; the number and kind of REQUEST-STATUS replies, the task '
                  'table with owners, the bodies of the listings (no foreign or stale UID, own queued UIDs present) and the SETUID of every started '
                  'job are compared with a map<UID, (owner, schedule)> model.',
